@@ -253,6 +253,8 @@ def run(ck: Checker):
     for p in c05.pairs(ck):
         if p.fin is not None:  # the class-style pairs: Buffer, AsyncBuffer, SyncIter
             c03ops.check_relay(ck, 'C03-7', p)
+    c05.check_per_run_state(ck, 'C03-7')
+    c05.check_marker_identity(ck, 'C03-7')
     # ------------------------------------------------------------------ C03-9
     ck.rule('C03-9', 'buffer and parmap inside a chain: stopping the consumer stops the producer of a buffer (incremental consumption: the stop flag is set on every abnormal consumer exit and polled by the producer every iteration — the C05-3 obligations of Buffer / AsyncBuffer / SyncIter), and parmap hands on what the worker returned as a value whatever its type (the consumer-pairing obligations C01-3 of fifo_stream / async_fifo_stream)', minimum=8)
     from . import fifo
